@@ -261,6 +261,7 @@ class SeqMixin:
         if isinstance(obj, list):
             if isinstance(idx, int):
                 self.check_write(obj)
+                self.note_write(obj, ('item', idx))
                 try:
                     obj[idx] = value
                 except IndexError:
